@@ -1855,9 +1855,56 @@ func ruleNewMapArgs(p *Prog, r *Report) {
 	}
 	// every non-empty pair is validated: the tests that reject a wildcard or an index in the new part lie on every path through
 	// one iteration of the loop over the pairs (a pair whose old path yields nothing is skipped only after them)
-	for _, ch := range []string{"*", "["} {
+	// afterColon: the value is the whole pair or what follows its first separator (never only what precedes it)
+	var afterColon func(v ssa.Value, d int) bool
+	afterColon = func(v ssa.Value, d int) bool {
+		if d > 4 {
+			return false
+		}
+		if isPairLoad(fn, v) {
+			return true
+		}
+		switch x := v.(type) {
+		case *ssa.Slice:
+			return isPairLoad(fn, x.X) && x.Low != nil
+		case *ssa.Phi:
+			for _, e := range x.Edges {
+				if !afterColon(e, d+1) {
+					return false
+				}
+			}
+			return len(x.Edges) > 0
+		}
+		return false
+	}
+	for _, ch := range []string{"*", "[", ":"} {
 		var sites []*ssa.BasicBlock
 		isTest := func(cc *ssa.CallCommon, arg0ok func(ssa.Value) bool) bool {
+			if ch == ":" {
+				// a surplus separator: counted on the whole pair, or searched for in what follows the first one
+				if !isCallTo(cc, "strings.Index", "strings.Contains", "strings.ContainsAny", "strings.IndexAny", "strings.IndexByte", "strings.ContainsRune", "strings.IndexRune", "strings.Count", "strings.LastIndex") || len(cc.Args) < 2 {
+					return false
+				}
+				sv, isS := constString(cc.Args[1])
+				if !isS {
+					if k, isK := constInt(cc.Args[1]); isK && k == ':' {
+						sv, isS = ":", true
+					}
+				}
+				if !isS || sv != ":" {
+					return false
+				}
+				if isCallTo(cc, "strings.Count", "strings.LastIndex") {
+					return isPairLoad(fn, cc.Args[0])
+				}
+				if sl, isSl := cc.Args[0].(*ssa.Slice); isSl {
+					return isPairLoad(fn, sl.X) && sl.Low != nil
+				}
+				if ph, isPhi := cc.Args[0].(*ssa.Phi); isPhi {
+					return afterColon(ph, 0) && !isPairLoad(fn, ph)
+				}
+				return false
+			}
 			if !isCallTo(cc, "strings.Index", "strings.Contains", "strings.ContainsAny", "strings.IndexAny", "strings.IndexByte", "strings.ContainsRune", "strings.IndexRune", "strings.Count") || len(cc.Args) < 2 {
 				return false
 			}
@@ -1873,6 +1920,22 @@ func ruleNewMapArgs(p *Prog, r *Report) {
 			return false
 		}
 		eachInstr(fn, func(b *ssa.BasicBlock, in ssa.Instruction) {
+			if ch == ":" {
+				// len(strings.Split(pair, ":")) compared with a constant
+				if bo, isB := in.(*ssa.BinOp); isB {
+					for _, side := range []ssa.Value{bo.X, bo.Y} {
+						lc, isL := side.(*ssa.Call)
+						if !isL || !isBuiltin(lc, "len") {
+							continue
+						}
+						if sc, isS := lc.Call.Args[0].(*ssa.Call); isS && isCallTo(&sc.Call, "strings.Split", "strings.SplitN") && isPairLoad(fn, sc.Call.Args[0]) {
+							if sv, okS := constString(sc.Call.Args[1]); okS && sv == ":" {
+								sites = append(sites, b)
+							}
+						}
+					}
+				}
+			}
 			c, ok := in.(*ssa.Call)
 			if !ok {
 				return
@@ -1883,9 +1946,17 @@ func ruleNewMapArgs(p *Prog, r *Report) {
 			}
 			if g := staticCallee(&c.Call); g != nil && p.InModule(g) && !p.Exported(g) && len(g.Blocks) > 0 && g != fn {
 				found := false
+				if ch == ":" {
+					// the helper that takes the pair apart tests for a surplus separator itself
+					for i, prm := range g.Params {
+						if i < len(c.Call.Args) && isStringType(prm.Type()) && isPairLoad(fn, c.Call.Args[i]) && surplusSeparatorTest(g, prm) {
+							found = true
+						}
+					}
+				}
 				eachInstr(g, func(b2 *ssa.BasicBlock, in2 ssa.Instruction) {
 					c2, ok := in2.(*ssa.Call)
-					if !ok {
+					if !ok || ch == ":" {
 						return
 					}
 					if isTest(&c2.Call, func(v ssa.Value) bool {
@@ -1908,6 +1979,9 @@ func ruleNewMapArgs(p *Prog, r *Report) {
 			}
 		})
 		cons := "new part tested for '" + ch + "' in every iteration"
+		if ch == ":" {
+			cons = "a surplus separator is tested for in every iteration"
+		}
 		if len(sites) == 0 {
 			r.Bad(rule, n, cons, p.Pos(fn.Pos()), "no test of the pair's new part for '"+ch+"' found: malformed pairs are not rejected")
 			continue
@@ -2091,4 +2165,41 @@ func isPairLoad(fn *ssa.Function, v ssa.Value) bool {
 	}
 	va := variadicParam(fn)
 	return va != nil && ia.X == ssa.Value(va) && isStringSlice(va.Type())
+}
+
+// surplusSeparatorTest: f tests its string parameter pair for a second ':' — len(strings.Split(pair, ":")) compared, or
+// strings.Count / LastIndex on the pair, or a search for ':' in what follows the first one.
+func surplusSeparatorTest(f *ssa.Function, pair *ssa.Parameter) bool {
+	found := false
+	isColon := func(v ssa.Value) bool {
+		if sv, ok := constString(v); ok {
+			return sv == ":"
+		}
+		k, ok := constInt(v)
+		return ok && k == ':'
+	}
+	eachInstr(f, func(b *ssa.BasicBlock, in ssa.Instruction) {
+		switch x := in.(type) {
+		case *ssa.BinOp:
+			for _, side := range []ssa.Value{x.X, x.Y} {
+				lc, isL := side.(*ssa.Call)
+				if !isL || !isBuiltin(lc, "len") {
+					continue
+				}
+				if sc, isS := lc.Call.Args[0].(*ssa.Call); isS && isCallTo(&sc.Call, "strings.Split", "strings.SplitN") && sc.Call.Args[0] == ssa.Value(pair) && isColon(sc.Call.Args[1]) {
+					found = true
+				}
+			}
+		case *ssa.Call:
+			if isCallTo(&x.Call, "strings.Count", "strings.LastIndex") && x.Call.Args[0] == ssa.Value(pair) && isColon(x.Call.Args[1]) {
+				found = true
+			}
+			if isCallTo(&x.Call, "strings.Index", "strings.Contains", "strings.IndexByte", "strings.ContainsRune") && len(x.Call.Args) > 1 && isColon(x.Call.Args[1]) {
+				if sl, isSl := x.Call.Args[0].(*ssa.Slice); isSl && sl.X == ssa.Value(pair) && sl.Low != nil {
+					found = true
+				}
+			}
+		}
+	})
+	return found
 }
